@@ -38,6 +38,7 @@ RULE_TEXT = (
     'ChangeMeta), evolve order drawn from both permutations, 25% with an '
     'injected failure. Non-trivial = both databases executed evolution SQL '
     'or a fault fired; distinct = digest of split + mutation kinds + order.')
+RULE_TEXT += ' 1 in 8 scenarios ship the evolution as raw SQL files per database (evolutions/<alias>_<label>.sql).'
 ASSUMPTIONS = [
     'models unknown to the router (contenttypes, django_evolution) are '
     'allowed on both databases, as with any Django router returning None',
